@@ -103,6 +103,9 @@ def build (objs : List Obj) : Except Err XEngine := do
       let p := if p.ns == "" then { p with ns := "default" } else p
       let si ← scan p .ingress
       let se ← scan p .egress
+      -- addRepresentativePod: a representative pod placed in the policy's namespace resolves that namespace
+      let needsNs := (si.sels ++ se.sels).any (fun rs => rs.nsSel.isNone)
+      let e := if needsNs && (e.findNs p.ns).isNone then { e with namespaces := e.namespaces ++ [⟨p.ns, [(nsNameLabelKey, p.ns)]⟩] } else e
       pure { eng := e, reps := (si.sels ++ se.sels).foldl (fun acc rs => addRepresentative acc p.ns rs) x.reps }
     | .wl w =>
       let e := x.eng.insertWorkload w
@@ -207,6 +210,12 @@ def xgressExposure (x : XEngine) (w : LPeer) (isIngress : Bool) : Except Err (Op
         else if !cw.isEmpty && c.containedIn cw then pure acc
         else pure (acc ++ [⟨false, rp.reprNsSel, rp.reprPodSel, c⟩])) []
       if general.isEmpty && perRep.isEmpty then pure none else pure (some (true, general ++ perRep))
+
+/-- the pair loop visits every (real workload, representative peer) pair; `convertPeerToPodPeer` fails for a
+representative peer placed in a namespace the engine does not hold -/
+def repNamespaceError (x : XEngine) (peers : List LPeer) (focus : String) : Bool :=
+  x.reps.any (fun (_, rp) => rp.ns != "" && (x.eng.findNs rp.ns).isNone) &&
+    peers.any (fun p => !p.isIP && isFocus focus p)
 
 /-- `buildExposedPeerListFromExposureMaps` -/
 def exposedPeers (x : XEngine) (peers : List LPeer) (focus : String) : Except Err (List XPeer) :=
